@@ -614,7 +614,41 @@ harness!(huffman_float_n3, unwind = 8, |s| {
     vcover!(!any_nan && w[0] == 0.0 && w[1].is_infinite());
 });
 
+// two float weights: NaN is an error; zero / infinite / equal weights give the two one-bit codewords
+harness!(huffman_float_n2, unwind = 6, |s| {
+    let w: [f32; 2] = [s.f32(), s.f32()];
+    let any_nan = w[0].is_nan() || w[1].is_nan();
+    s.assume(any_nan || (w[0] >= 0.0 && w[1] >= 0.0));
+    let enc = EncoderHuffmanTree::from_float_probabilities::<f32, _>(w.iter());
+    let dec = DecoderHuffmanTree::from_float_probabilities::<f32, _>(w.iter());
+    assert!(enc.is_err() == any_nan);
+    assert!(dec.is_err() == any_nan);
+    if let (Ok(enc), Ok(dec)) = (enc, dec) {
+        let sym = s.usize();
+        s.assume(sym < 2);
+        let mut bits = [false; 4];
+        let n = huff_suffix(&enc, sym, &mut bits).unwrap();
+        assert!(n == 1);
+        let mut pos = n;
+        let d = dec.decode_symbol(core::iter::from_fn(|| {
+            if pos > 0 {
+                pos -= 1;
+                Some(Result::<bool, ()>::Ok(bits[pos]))
+            } else {
+                None
+            }
+        }));
+        assert!(d.is_ok());
+        assert!(d.ok().unwrap() == sym);
+        core::mem::forget(enc);
+        core::mem::forget(dec);
+    }
+    vcover!(any_nan);
+    vcover!(!any_nan && w[0] == w[1]);
+});
+
 dispatch!(
+    huffman_float_n2,
     stack_lifo_script, stack_export_import, stack_reexport, queue_fifo, stack_guard, queue_guard,
     expgolomb_u8, expgolomb_u16, expgolomb_through_coders,
     huffman_n1, huffman_n2, huffman_n3, huffman_n4, huffman_float_n3
